@@ -170,3 +170,21 @@ void h_nesting_counter(void) {
   if (n >= 1) VASSERT((w_nl_dec_reached(n) & 1) == (n == 1), "decrement() subtracts one");
   if (n >= 2) { VASSERT((w_nl_dec_dec_reached(n) & 1) == (n == 2), "two decrements subtract two"); VWITNESS("deep"); }
 }
+/* ---- doubleToFloat (ARDUINOJSON_USE_DOUBLE=0 path of the MessagePack reader): big-endian bytes in, big-endian bytes out */
+void h_d2f(void) {
+  double d = vin_f64(); uint64_t bits = vbits64(d); uint8_t in[8], out[4];
+  for (unsigned i = 0; i < 8; i++) in[i] = (uint8_t)(bits >> (56 - 8 * i));
+  w_d2f(in, out);
+  uint32_t fb = ((uint32_t)out[0] << 24) | ((uint32_t)out[1] << 16) | ((uint32_t)out[2] << 8) | out[3]; float f = vin_unbits32(fb); VOBS(fb);
+  double a = d < 0 ? -d : d;
+  if (d != d) { VASSERT(f != f, "NaN stays NaN"); VWITNESS("nan"); return; }
+  VASSERT((fb >> 31) == (uint32_t)(bits >> 63), "sign preserved");
+  if (a >= 3.402823669209385e38 /* 2^128 */) { VASSERT(f == (d < 0 ? -__builtin_inff() : __builtin_inff()), "magnitude beyond the float range becomes +-infinity, never a finite value of the wrong magnitude"); VWITNESS("big"); return; }
+  if (a > 3.4028234663852886e38) { float af = f < 0 ? -f : f; VASSERT(af == 3.4028234663852886e38f || af == __builtin_inff(), "between FLT_MAX and 2^128: FLT_MAX (truncation) or infinity (rounding)"); return; }
+  if (a < 1.1754943508222875e-38) { VASSERT((f < 0 ? -f : f) <= 1.1754943508222875e-38f, "magnitude below the float range becomes zero or a subnormal, never a larger value"); VWITNESS("tiny"); return; }
+  /* in range: the float just below or just above d in magnitude (truncation or round-to-nearest are both accepted) */
+  float n = (float)d; double fd = (double)f, nd = (double)n;
+  double lo = fd < nd ? fd : nd, hi = fd < nd ? nd : fd;
+  VASSERT(fd == nd || (lo <= d && d <= hi && (vbits32(f) + 1 == vbits32(n) || vbits32(n) + 1 == vbits32(f))), "in range: one of the two floats that bracket the double");
+  VWITNESS("inrange");
+}
